@@ -1,6 +1,8 @@
 (** The three formulations of the weak hash agree: [beta_hash] (Go's uint32 arithmetic, the
     model of wsync.βhash), [beta_plain] (the same sums without wrap-around) and [beta_prefix]
-    (running sums).  Blocks are shorter than 2^32 bytes. *)
+    (running sums) - for blocks of any length: Go's wrapping [uint32] subtraction makes the factor
+    [(len - i) mod 2^32] also when [uint32(len-1) < uint32(i)]. *)
+From Coq Require Import ZifyBool ZifyNat ZifyN.
 From Wharf Require Import Base.Prelude Sig.Weak.
 Local Open Scope N_scope.
 
@@ -18,31 +20,54 @@ Proof.
   rewrite N.mul_comm, N.mod_add by discriminate. apply N.mod_mod. discriminate.
 Qed.
 
+(** Go's [uint32] subtraction is subtraction modulo 2^32 (stated with the operands of the loop:
+    [x], [y] arbitrary naturals reduced by the conversions, [y <= x]) *)
+Lemma sub32_mod x y : y <= x -> sub32 (u32 x) (u32 y) = (x - y) mod M32.
+Proof.
+  intros Hle. unfold sub32. rewrite !u32_mod. unfold M32.
+  pose proof (N.mod_lt x 4294967296 ltac:(discriminate)) as Hx.
+  pose proof (N.mod_lt y 4294967296 ltac:(discriminate)) as Hy.
+  pose proof (N.div_mod x 4294967296 ltac:(discriminate)) as Ex.
+  pose proof (N.div_mod y 4294967296 ltac:(discriminate)) as Ey.
+  set (qx := x / 4294967296) in *. set (rx := x mod 4294967296) in *.
+  set (qy := y / 4294967296) in *. set (ry := y mod 4294967296) in *.
+  clearbody qx rx qy ry. assert (Hq : qy <= qx) by lia.
+  destruct (N.ltb_spec rx ry) as [Hlt|Hge].
+  - replace (x - y) with (rx + 4294967296 - ry + (qx - qy - 1) * 4294967296) by lia.
+    rewrite N.mod_add by discriminate. reflexivity.
+  - replace (x - y) with (rx - ry + (qx - qy) * 4294967296) by lia.
+    replace (rx + 4294967296 - ry) with (rx - ry + 1 * 4294967296) by lia.
+    rewrite !N.mod_add by discriminate. reflexivity.
+Qed.
+
+(** the factor [uint32(len(block)-1) - uint32(i) + 1] is [(len - i) mod 2^32] whenever
+    [i < len], however long the block *)
+Lemma beta_factor len i : i < len -> u32 (sub32 (u32 (len - 1)) (u32 i) + 1) = (len - i) mod M32.
+Proof.
+  intros Hi. rewrite sub32_mod by lia. rewrite u32_mod.
+  rewrite N.add_mod_idemp_l by discriminate. f_equal. lia.
+Qed.
+
 Lemma beta_loop_plain (l : list N) : forall len i a b a' b',
-  len < M32 -> i + N.of_nat (length l) = len ->
+  i + N.of_nat (length l) = len ->
   a = a' mod M32 -> b = b' mod M32 ->
   fst (beta_loop len i a b l) = fst (plain_loop len i a' b' l) mod M32 /\
   snd (beta_loop len i a b l) = snd (plain_loop len i a' b' l) mod M32.
 Proof.
-  induction l as [|v r IH]; intros len i a b a' b' Hlen Hi Ha Hb; cbn [beta_loop plain_loop fst snd].
+  induction l as [|v r IH]; intros len i a b a' b' Hi Ha Hb; cbn [beta_loop plain_loop fst snd].
   - split; assumption.
-  - cbn [length] in Hi. apply IH; [assumption|lia| |].
+  - cbn [length] in Hi. apply IH; [lia| |].
     + rewrite !u32_mod, Ha. rewrite <- N.add_mod by discriminate. reflexivity.
-    + rewrite !u32_mod, Hb.
-      rewrite (N.mod_small (len - 1)) by lia.
-      rewrite (N.mod_small i) by lia.
-      rewrite (N.mod_small (len - 1 - i)) by lia.
-      replace (len - 1 - i + 1) with (len - i) by lia.
-      rewrite (N.mod_small (len - i)) by lia.
-      rewrite N.mul_mod_idemp_r by discriminate.
+    + rewrite beta_factor by lia. rewrite !u32_mod, Hb.
+      rewrite <- N.mul_mod by discriminate.
       rewrite <- N.add_mod by discriminate. reflexivity.
 Qed.
 
-(** Go's wrapping arithmetic computes the plain sums *)
-Theorem beta_hash_plain (block : list N) : N.of_nat (length block) < M32 -> beta_hash block = beta_plain block.
+(** Go's wrapping arithmetic computes the plain sums - no bound on the length of the block *)
+Theorem beta_hash_plain (block : list N) : beta_hash block = beta_plain block.
 Proof.
-  intros Hlen. unfold beta_hash, beta_plain.
-  pose proof (beta_loop_plain block (N.of_nat (length block)) 0 0 0 0 0 Hlen ltac:(lia) eq_refl eq_refl) as [Ha Hb].
+  unfold beta_hash, beta_plain.
+  pose proof (beta_loop_plain block (N.of_nat (length block)) 0 0 0 0 0 ltac:(lia) eq_refl eq_refl) as [Ha Hb].
   destruct (beta_loop (N.of_nat (length block)) 0 0 0 block) as [a b].
   destruct (plain_loop (N.of_nat (length block)) 0 0 0 block) as [a' b']. cbn [fst snd] in Ha, Hb. subst a b.
   rewrite !low16_mod, !mod32_mod16, !u32_mod.
@@ -80,5 +105,5 @@ Proof.
   replace c with b by lia. subst a'. reflexivity.
 Qed.
 
-Corollary beta_hash_prefix (block : list N) : N.of_nat (length block) < M32 -> beta_hash block = beta_prefix block.
-Proof. intros Hl. rewrite beta_hash_plain by assumption. apply beta_plain_prefix. Qed.
+Corollary beta_hash_prefix (block : list N) : beta_hash block = beta_prefix block.
+Proof. rewrite beta_hash_plain. apply beta_plain_prefix. Qed.
